@@ -46,6 +46,15 @@ def cycles(task):
             else:
                 n, present, mag, seed = spec
                 obj0 = c02.build(fmt, random.Random(seed), n, present, mag)
+                if fmt.startswith("json_qcschema") and seed % 2:
+                    # dictionaries whose values are all None (JSON null): whatever the first cycle makes of them, it stays that way
+                    ex = obj0.extra
+                    if isinstance(ex.get("molecule"), dict):
+                        ex["molecule"]["extras"] = {"note": None}
+                        ex["molecule"]["comment"] = None
+                    if isinstance(ex.get("input"), dict):
+                        ex["input"].setdefault("keywords", {})["allnull"] = {"x": None, "y": None}
+                        ex["input"]["extras"] = {"only": None}
             p = [os.path.join(tmp, f"g{i}_" + O.SUFFIX[c02.real_fmt(fmt)]) for i in range(4)]
             kwio = c02.io_kwargs(fmt)
             try:
@@ -72,7 +81,10 @@ def cycles(task):
                 ev["stage"] = f"{type(exc).__name__}: {str(exc.__cause__ or exc)[:100]}".replace(tmp, "")
                 return ev
             d1, d2 = deep(public_state(obj1)), deep(public_state(obj2))
-            drift = sorted({x.strip("/").split("/")[0].strip("'") for x in diff(d1, d2)})
+            paths = diff(d1, d2)
+            if fmt.startswith("json_qcschema"):
+                paths = [x for x in paths if "provenance" not in x]      # the provenance trail grows by design: projected away
+            drift = sorted({x.strip("/").split("/")[0].strip("'") for x in paths})
             ev["obj2_eq_obj1"] = not drift
             ev["drift"] = drift
             ev["bytes3_eq_bytes2"] = open(p[2], "rb").read() == open(p[3], "rb").read()
